@@ -86,9 +86,9 @@ Print Assumptions c14_values_without_echo.
 (* ends_iff_all_ended, if-direction: an accepted access after which every source is finished answers with the end of
    the sequence (End or the remembered exception) and leaves the aggregate finished; with c14_end_means_all_ended this
    is the "iff" *)
-Theorem c14_end_if_all_ended : forall ha scs ops y a,
+Theorem c14_end_if_all_ended : forall ha scs ops y a p,
   let g := snd (run_from ha (build_state scs) ops) in
-  let '(g1, o) := step ha g (OAccess y a) in
+  let '(g1, o) := step ha g (OAccess y a p) in
   o_st o = 0%Z -> all_final (srcs g1) -> ast g1 = AFinal /\ terminal_res (o_res o).
 Proof. exact aggr_end_if_all_ended. Qed.
 Print Assumptions c14_end_if_all_ended.
@@ -101,10 +101,10 @@ Print Assumptions c14_delivered_is_observed.
 
 (* argument_routing: an access of an aggregate parked at the yield of source i resumes exactly source i, which
    receives exactly that access's argument *)
-Theorem c14_argument_routing : forall ha g y a i s1 b e,
+Theorem c14_argument_routing : forall ha g y a p i s1 b e,
   ast g = AYield i -> idle g = true -> style_ok ha y = true ->
   charge (get_src (srcs g) i) a = Some (s1, b, e) ->
-  o_ev (snd (step ha g (OAccess y a))) = tag_ev i e /\ Forall (arg_is a) e /\ s_arg s1 = a.
+  o_ev (snd (step ha g (OAccess y a p))) = tag_ev i e /\ Forall (arg_is a) e /\ s_arg s1 = a.
 Proof. exact aggr_argument_routing. Qed.
 Print Assumptions c14_argument_routing.
 
@@ -120,11 +120,19 @@ Theorem c14_raii_balance : forall ha ops j x,
 Proof. exact aggr_raii_balance. Qed.
 Print Assumptions c14_raii_balance.
 
+(* the completion ORDER between sources is not fixed by C14: every theorem above quantifies over op lists in which each
+   access / completion may carry an arbitrary preference list that rearranges the completion queue before the loop
+   pops it (`reorder`, always a permutation; [] = the library's FIFO) - so they hold for FIFO, LIFO or any other
+   pop order *)
+Theorem c14_any_pop_order : forall p q, Permutation (reorder q p) q.
+Proof. exact reorder_perm. Qed.
+Print Assumptions c14_any_pop_order.
+
 (* non-vacuity: three sources (one suspending, one throwing) built through the ops, read to the end: the state reached
    by the Source/Build ops is build_state, the union is delivered, the exception comes last *)
 Example c14_nonvacuous :
   let scs := [[IYield 0; IYield 1]; [IAwaitPending 1; IYield 1000]; [IYield 2000; IThrow 7]] in
-  let ops := [OAccess 0 0; OAccess 3 0; OAccess 2 0; OAccess 0 0; OComplete 1 5; OAccess 4 0; OAccess 0 0] in
+  let ops := [OAccess 0 0 []; OAccess 3 0 []; OAccess 2 0 []; OAccess 0 0 []; OComplete 1 5 []; OAccess 4 0 []; OAccess 0 0 []] in
   snd (run_from false agg0 (map OSource scs ++ [OBuild])) = build_state scs /\
   map o_res (fst (run_from false (build_state scs) ops)) = [RVal 0; RVal 2000; RVal 1; RPend; RVal 1000; RExc 7; REndT] /\
   deliv false (build_state scs) ops = [(0%nat, 0%Z); (2%nat, 2000%Z); (0%nat, 1%Z); (1%nat, 1000%Z)] /\
